@@ -44,7 +44,7 @@ ASSUMPTIONS = [
     '.run default CLOSE ON: named SELECT queries in all shapes; named BALANCES/JOURNAL/PRINT only without FROM or with an explicit CLOSE (where both readings of the property agree)',
     '.tables/.describe/.explain output text and warnings text are never compared',
 ]
-PROBES = ['bookkeeping_command', 'several_lines_in_one_cmdloop', 'bare_non_legacy_word', 'named_query_text_typed_after_run', 'render_after_setting_change', 'numberify_on_render', 'csv_render', 'boxed_unicode_render', 'empty_text_result',
+PROBES = ['run_listing_after_missing_name', 'bookkeeping_command', 'several_lines_in_one_cmdloop', 'bare_non_legacy_word', 'named_query_text_typed_after_run', 'render_after_setting_change', 'numberify_on_render', 'csv_render', 'boxed_unicode_render', 'empty_text_result',
           'run_default_close_applied', 'run_explicit_close_kept', 'invalid_set_rejected', 'either_or_value', 'writer_fault_prefix',
           'second_session_isolated', 'cmdloop_error_path', 'dot_keyword_not_executed', 'legacy_bare_command', 'print_statement',
           'cli_output_file', 'cli_quiet_with_errors', 'cli_stdin_query', 'cli_init_file', 'nullvalue_rendered', 'expand_render']
@@ -407,6 +407,7 @@ def execute(case, keep_log=False):
         sess = [None] * n
         changed_since_render = [False] * n
         ran_texts = [set() for _ in range(n)]
+        asked_missing = [False] * n
         nontrivial = False
         order = sim.schedule_order(case.get('schedule', []), [len(c['ops']) for c in case['clients']])
 
@@ -631,6 +632,7 @@ def execute(case, keep_log=False):
             elif k == 'run':
                 if op['q'] is None:
                     got, err, so, exc, _ = feed(ci, '.run nosuchquery')
+                    asked_missing[ci] = True
                     log.add(where, k, 'missing', got, has_error(err))
                     if not errored(exc, err, s['mode']) or got:
                         violation('run-missing-error', where, op, 'error message, no output', [got, err[:200]])
@@ -668,6 +670,13 @@ def execute(case, keep_log=False):
                 S.probes['bookkeeping_command'] += 1
                 if exc is not None and not op['text'].startswith('.parse'):
                     violation('introspection-raised', where, op, 'no exception', f'{core.exc_class(exc)}: {exc}'[:200])
+                if op['text'] == '.run':
+                    # the listing names the queries of the ledger; asking for an unknown name earlier changed nothing
+                    listing = (got + so).splitlines()
+                    if 'nosuchquery' in [l_.strip() for l_ in listing]:
+                        violation('run-missing-changed-registry', where, op, 'only the named queries of the ledger', listing[:10])
+                    elif asked_missing[ci]:
+                        S.probes['run_listing_after_missing_name'] += 1
             elif k == 'bareword':
                 # only a fixed set of legacy commands is accepted without the dot; any other bare line is a
                 # statement for the query parser - here an invalid one: an error, no command output
